@@ -113,6 +113,36 @@ Flat(ps) == IF ps = <<>> THEN <<>> ELSE Head(ps) \o Flat(Tail(ps))
 Range(s) == { s[i] : i \in 1..Len(s) }
 
 ----------------------------------------------------------------------------
+(* Writes.  The collection under a listing is not static: between building *)
+(* it and walking the pages, and between two walks, the trait's write      *)
+(* operations run.  A write names a key; it is either refused (and then    *)
+(* the listing must be what it was) or it changes the key set in a known   *)
+(* way.  Kinds:                                                            *)
+(*   create   add key            refused if the key exists                 *)
+(*   update   rewrite the item   refused if the key is absent              *)
+(*   delete   remove key         an absent key: refused, or with           *)
+(*                               allow-missing accepted without effect     *)
+(*   badmask  update through a field mask naming an unknown field: refused *)
+(*   refuse   a trait-specific write the server must refuse (dispense in   *)
+(*            an inconvertible unit, acknowledge with a stale version,     *)
+(*            select an unknown mode, ...)                                 *)
+(*   use      a trait-specific accepted write on an existing item          *)
+(*            (dispense, acknowledge, select mode): contents change, the   *)
+(*            key set does not                                             *)
+WriteKinds == {"create", "update", "delete", "badmask", "refuse", "use"}
+Refuses(K, op) == CASE op.kind = "create"  -> op.key \in K
+                    [] op.kind = "update"  -> op.key \notin K
+                    [] op.kind = "delete"  -> op.key \notin K /\ ~op.am
+                    [] op.kind = "use"     -> op.key \notin K
+                    [] OTHER               -> TRUE
+Apply(K, op) == IF Refuses(K, op) THEN K
+                ELSE IF op.kind = "create" THEN K \cup {op.key}
+                ELSE IF op.kind = "delete" THEN K \ {op.key}
+                ELSE K
+RECURSIVE History(_, _)
+History(K, ops) == IF ops = <<>> THEN K ELSE History(Apply(K, Head(ops)), Tail(ops))
+
+----------------------------------------------------------------------------
 (* MC: the state machine (items, token) with the pages delivered so far.   *)
 (* Stage "pick" spreads the choice of scheme / size / start token over     *)
 (* TLC's workers.                                                          *)
@@ -124,7 +154,7 @@ StartToks(sch) ==
   ELSE {NoTok, Garbage, KeyTok(<<1>>)} \cup { IdxTok(i) : i \in (0 - 1)..(NMax + 1) }
 
 MCInit == c \in { [st |-> "pick", sch |-> "lastkey", keep |-> FALSE, items |-> Sorted(S), size |-> 0,
-                   start |-> NoTok, tok |-> NoTok, pages |-> <<>>, totals |-> <<>>]
+                   start |-> NoTok, tok |-> NoTok, pages |-> <<>>, totals |-> <<>>, writes |-> 0]
                   : S \in { T \in SUBSET MCKeys : Cardinality(T) <= NMax } }
 \* Walk: one request with the token of the previous answer
 Walk ==
@@ -134,7 +164,20 @@ Walk ==
           ELSE IF p.status # "OK" THEN [c EXCEPT !.st = "error"]
           ELSE [c EXCEPT !.pages = Append(@, p.items), !.totals = Append(@, p.total), !.tok = p.next,
                          !.st = IF p.next.kind = "none" THEN "done" ELSE "paging"]
+\* MC of writes: after a finished walk from the first page a write may happen and the listing
+\* is walked again from the first page (the number of writes per behaviour is bounded; only
+\* walks with the default page size continue, to keep the state space small)
+MCWrites == IF Scope >= 2 THEN 2 ELSE 1
+MCOps == { [kind |-> k, key |-> key, am |-> am] : k \in WriteKinds, key \in MCKeys, am \in BOOLEAN }
+WriteThenWalkAgain ==
+  /\ c.st = "done" /\ c.start = NoTok /\ c.size = 0 /\ c.writes < MCWrites
+  /\ \E op \in MCOps :
+       /\ Cardinality(Apply(Range(c.items), op)) <= NMax
+       /\ (op.am => op.kind = "delete")
+       /\ c' = [c EXCEPT !.items = Sorted(Apply(Range(c.items), op)), !.writes = @ + 1, !.st = "paging",
+                          !.tok = NoTok, !.pages = <<>>, !.totals = <<>>]
 MCNext ==
+  \/ WriteThenWalkAgain
   \/ /\ c.st = "pick"
      /\ \E sch \in {"lastkey", "index"}, keep \in BOOLEAN, size \in MCSizes :
           \E t \in StartToks(sch) :
@@ -162,6 +205,15 @@ InOrder       == LET f == Flat(c.pages) IN Len(f) <= Len(Wanted) /\ f = SubSeq(W
 Complete      == c.st = "done" => Flat(c.pages) = Wanted
 ErrorsExactly == /\ c.st = "error" => Refused /\ c.pages = <<>>
                  /\ Refused /\ c.st # "pick" => c.st \in {"paging", "error"} /\ c.pages = <<>>
+\* the last-key scheme searches the listing by key order: every history of writes keeps it sorted
+ListingSorted == \A i \in 1..(Len(c.items) - 1) : KeyLt(c.items[i], c.items[i + 1])
+\* laws of the write operations (stated on the listing of the state)
+WriteLaws == c.st = "pick" => LET K == Range(c.items) IN       \* (once per listing)
+  \A op \in MCOps :
+    /\ Refuses(K, op) => Apply(K, op) = K
+    /\ op.kind \in {"update", "badmask", "refuse", "use"} => Apply(K, op) = K
+    /\ op.kind = "create" /\ op.key \notin K => Apply(K, op) = K \cup {op.key}
+    /\ op.kind = "delete" => Apply(K, op) = K \ {op.key}
 OnlyLastEmpty == \A i \in 1..Len(c.pages) : c.pages[i] = <<>> => i = Len(c.pages) /\ c.st = "done"
 
 ----------------------------------------------------------------------------
@@ -191,24 +243,53 @@ Schemes == {"lastkey", "index"}
 
 GenWalk(sch, n, size, rep) ==
   [st |-> "paging", k |-> "walk", sch |-> sch, keep |-> TRUE, n |-> n, size |-> size, rep |-> rep, variant |-> 0,
-   items |-> Ranks(n), start |-> NoTok, tok |-> NoTok, pages |-> <<>>, totals |-> <<>>]
+   items |-> Ranks(n), start |-> NoTok, tok |-> NoTok, pages |-> <<>>, totals |-> <<>>, ids |-> {}, segs |-> <<>>]
 \* corrupted / foreign tokens: variant 1..9 is mapped by the harness to a token class of
 \* the server's scheme (PagingTrace!Malformed says which of them the property settles)
 TokSizes == {0, 1, 2, 7, 50, 1000}
 GenTok(sch, n, variant, rep) ==
   [st |-> "emit", k |-> "tok", sch |-> sch, keep |-> TRUE, n |-> n, size |-> RandomElement(TokSizes), rep |-> rep,
-   variant |-> variant, items |-> <<>>, start |-> NoTok, tok |-> NoTok, pages |-> <<>>, totals |-> <<>>]
+   variant |-> variant, items |-> <<>>, start |-> NoTok, tok |-> NoTok, pages |-> <<>>, totals |-> <<>>,
+   ids |-> {}, segs |-> <<>>]
+
+(* histories: a collection, then twice (some writes, a walk from the first *)
+(* page).  Six of ten writes name a key that exists at that moment; the    *)
+(* key space is small so that the others often do too.  listing is the     *)
+(* key set the specification expects at each walk.                         *)
+HistKeys == Keys(5, 2)        \* 30 keys
+RandOp(K, z) ==
+  LET existing == K # {} /\ RandomElement(1..10) <= 6 IN
+  [kind |-> RandomElement(WriteKinds), key |-> IF existing THEN RandomElement(K) ELSE RandomElement(HistKeys),
+   am |-> RandomElement(BOOLEAN)]
+RECURSIVE RandOps(_, _, _)
+RandOps(K, m, z) == IF m = 0 THEN <<>>
+                    ELSE LET op == RandOp(K, z) IN <<op>> \o RandOps(Apply(K, op), m - 1, z + 1)
+HistSizes == {0, 1, 2, 3, 7}
+GenHist(sch, n, rep) ==
+  LET K0   == RandomSubset(n, HistKeys)
+      ops1 == RandOps(K0, RandomElement(1..3), rep)
+      K1   == History(K0, ops1)
+      ops2 == RandOps(K1, RandomElement(0..2), rep + 7)
+      K2   == History(K1, ops2)
+  IN [st |-> "emit", k |-> "hist", sch |-> sch, keep |-> TRUE, n |-> n, size |-> 0, rep |-> rep, variant |-> 0,
+      items |-> <<>>, start |-> NoTok, tok |-> NoTok, pages |-> <<>>, totals |-> <<>>, ids |-> K0,
+      segs |-> << [ops |-> ops1, size |-> RandomElement(HistSizes), listing |-> K1],
+                  [ops |-> ops2, size |-> RandomElement(HistSizes), listing |-> K2] >>]
+HistN == IF Scope >= 2 THEN 0..24 ELSE {0, 1, 2, 3, 5, 8, 12, 20}
+HistReps == IF Scope >= 2 THEN 12 ELSE 6
 TokN == IF Scope >= 2 THEN 0..12 \cup {49, 50, 51, 60, 1000} ELSE {0, 1, 2, 3, 5, 10, 50, 51}
 
 Grid == { g \in (GridN \cup BigN) \X GridSizes : g[2] \in SizesFor(g[1]) }
 GenInit == c \in UNION { { GenWalk(sch, g[1], g[2], r) : r \in 1..RepsFor(g[1]) } : sch \in Schemes, g \in Grid }
                  \cup UNION { { GenWalk(sch, n, RandSize(n + r), 10 + r) : r \in 1..RepsFor(n) } : sch \in Schemes, n \in GridN \cup BigN }
                  \cup UNION { { GenTok(sch, n, v, r) : r \in 1..RepsFor(n) } : sch \in Schemes, n \in TokN, v \in 1..9 }
+                 \cup { GenHist(sch, n, r) : sch \in Schemes, n \in HistN, r \in 1..HistReps }
 GenNext == Walk
 EmitCase ==
   c.st \in {"done", "error", "emit"} =>
     PrintT("CASE " \o ToJson(
-      [k |-> c.k, sch |-> c.sch, n |-> c.n, size |-> c.size, rep |-> c.rep, variant |-> c.variant, ids |-> Ids(c.n),
+      [k |-> c.k, sch |-> c.sch, n |-> c.n, size |-> c.size, rep |-> c.rep, variant |-> c.variant,
+       ids |-> IF c.k = "hist" THEN c.ids ELSE Ids(c.n), segs |-> c.segs,
        expect |-> IF c.st = "error" THEN "error" ELSE IF c.st = "done" THEN "pages" ELSE "unsettled",
        lens |-> [i \in 1..Len(c.pages) |-> Len(c.pages[i])]]))
 =============================================================================
